@@ -1162,6 +1162,7 @@ QUERY_OK = {"str", "int", "num", "bool", "date", "datetime", "uuid", "strfmt", "
             "ref_enum", "ref_int_enum", "ref_alias", "union_scalar", "union_any_of", "typelist", "wrap_oneof", "union_enum_int", "any", "ref_union"}
 HEADER_OK = {"str", "int", "num", "bool", "enum_str", "enum_int", "ref_enum", "ref_int_enum", "strfmt", "uuid", "union_scalar"}
 COOKIE_OK = {"str", "enum_str", "ref_enum", "strfmt", "int", "num", "bool", "date", "uuid", "enum_int", "array_str"}
+FORM_OK = {"str", "int", "num", "bool", "date", "datetime", "uuid", "strfmt", "enum_str", "enum_int", "const_str", "const_int", "array_str", "array_int", "ref_enum", "ref_int_enum", "ref_alias", "union_scalar"}
 PATH_OK = {"str", "int", "num", "bool", "date", "uuid", "enum_str", "enum_int", "ref_enum", "ref_int_enum", "strfmt"}
 
 
@@ -1196,6 +1197,13 @@ def matrix_docs() -> list[tuple[str, dict]]:
             if kind not in ("null",):
                 paths["/b"] = {"post": {"operationId": "b_op", "requestBody": {"required": True, "content": {"application/json": {"schema": clone(schema)}}},
                                         "responses": {"200": {"description": "ok", "content": {"application/json": {"schema": clone(schema)}}}, "404": {"description": "nf"}}}}
+            if kind not in ("null",):
+                # the kind as a part of a multipart body and (scalars / arrays of scalars) as a field of a form body
+                comps["MP"] = {"type": "object", "properties": {"req": clone(schema), "opt": clone(schema), "plain": {"type": "string"}}, "required": ["req"]}
+                paths["/mp"] = {"post": {"operationId": "mp_op", "requestBody": {"content": {"multipart/form-data": {"schema": {"$ref": "#/components/schemas/MP"}}}}, "responses": ok200}}
+                if kind in FORM_OK:
+                    comps["MF"] = {"type": "object", "properties": {"req": clone(schema), "opt": clone(schema), "plain": {"type": "string"}}, "required": ["req"]}
+                    paths["/form"] = {"post": {"operationId": "form_op", "requestBody": {"content": {"application/x-www-form-urlencoded": {"schema": {"$ref": "#/components/schemas/MF"}}}}, "responses": ok200}}
             paths["/m"] = {"put": {"operationId": "m_op", "security": [{"bearer": []}], "requestBody": {"content": {"application/json": {"schema": {"$ref": "#/components/schemas/M"}}}},
                                    "responses": {"200": {"description": "ok", "content": {"application/json": {"schema": {"$ref": "#/components/schemas/M"}}}},
                                                  "201": {"description": "list", "content": {"application/json": {"schema": {"type": "array", "items": {"$ref": "#/components/schemas/M"}}}}}}}}
